@@ -591,10 +591,8 @@ class Engine:
                     if va is vb:
                         regs[k] = va
                     else:
-                        try:
-                            regs[k] = self.merge_val(ca, va, vb)
-                        except Unmergeable:
-                            pass
+                        # a register that cannot be merged may still be live: keep the two states apart
+                        regs[k] = self.merge_val(ca, va, vb)
             extra = None
             if xa is not None or xb is not None:
                 extra = self.merge_val(ca, xa, xb)
